@@ -80,6 +80,7 @@ func checkC01(c *fw.Ctx) {
 
 	checkSortJSON(c)
 	checkEnforceFlag(c)
+	checkMinusSign(c)
 }
 
 func isParam(v ssa.Value, fn *ssa.Function, idx int) bool {
@@ -460,4 +461,96 @@ func refersTo(addr ssa.Value, alloc *ssa.Alloc, f *ssa.Function) bool {
 		}
 	}
 	return false
+}
+
+// checkMinusSign: CompactJSON drops the '-' of the number -0. Whether a '-' followed by '0' is
+// that number cannot be decided from those two bytes alone ("-0.5", "1e-05"): on the way from
+// the test for '-' to the point where the sign is skipped (no byte appended, back to the
+// scanning loop) at least one more input byte must be examined, directly or by a helper that
+// is given the input.
+func checkMinusSign(c *fw.Ctx) {
+	rule := "8 minus-sign"
+	fn := mustFunc(c, rule, "CompactJSON")
+	if fn == nil {
+		return
+	}
+	isInputByte := func(v ssa.Value) (idx ssa.Value, ok bool) {
+		u, isU := fw.Unwrap(v).(*ssa.UnOp)
+		if !isU {
+			return nil, false
+		}
+		ia, isIA := u.X.(*ssa.IndexAddr)
+		if !isIA {
+			return nil, false
+		}
+		if p, isP := ia.X.(*ssa.Parameter); isP && p == fn.Params[0] {
+			return ia.Index, true
+		}
+		return nil, false
+	}
+	n := 0
+	for _, iff := range fw.Ifs(fn) {
+		bo, isB := iff.Cond.(*ssa.BinOp)
+		if !isB || bo.Op != token.EQL {
+			continue
+		}
+		if k, isC := fw.ConstInt(bo.Y); !isC || k != '-' {
+			continue
+		}
+		if _, ok := isInputByte(bo.X); !ok {
+			continue
+		}
+		n++
+		// blocks reachable from the '-' edge without appending, up to the loop header
+		header, _ := fw.LoopOf(iff.Block())
+		seen := map[*ssa.BasicBlock]bool{}
+		work := []*ssa.BasicBlock{iff.Block().Succs[0]}
+		idxs := map[ssa.Value]bool{}
+		helper := false
+		skips := false
+		for len(work) > 0 {
+			b := work[len(work)-1]
+			work = work[:len(work)-1]
+			if seen[b] || b == iff.Block() {
+				continue
+			}
+			if b == header {
+				skips = true
+				continue
+			}
+			seen[b] = true
+			appends := false
+			for _, ins := range b.Instrs {
+				if call, ok := ins.(ssa.CallInstruction); ok {
+					if fw.CalleeName(call) == "builtin.append" {
+						appends = true
+					}
+					for _, a := range call.Common().Args {
+						if a == ssa.Value(fn.Params[0]) && fw.CalleeName(call) != "builtin.len" {
+							helper = true
+						}
+					}
+				}
+			}
+			if appends {
+				continue // the sign (or something else) is emitted on this path: not the skip
+			}
+			if i2, ok := fw.LastIf(b); ok {
+				if b2, isB2 := i2.Cond.(*ssa.BinOp); isB2 {
+					for _, opnd := range []ssa.Value{b2.X, b2.Y} {
+						if ix, ok := isInputByte(opnd); ok {
+							idxs[ix] = true
+						}
+					}
+				}
+			}
+			work = append(work, b.Succs...)
+		}
+		if !skips {
+			c.Ok(rule, "CompactJSON: the sign of a number is never dropped", c.P.Pos(fw.InstrPos(iff)), "no path from the '-' test back to the scanner that emits nothing")
+			continue
+		}
+		c.Check(helper || len(idxs) >= 2, rule, "CompactJSON: a '-' is dropped only after looking beyond the following '0'", c.P.Pos(fw.InstrPos(iff)), "", fmt.Sprintf("the sign is skipped after examining %d input byte(s) after it: \"-0.5\" becomes \"0.5\" and \"1e-05\" becomes \"1e05\" (the value changes)", len(idxs)))
+	}
+	c.Min(rule+" tests for '-' in CompactJSON", n, 1)
 }
